@@ -180,8 +180,14 @@ def real_eval(src, env):
     return "ok " + core.encb(r) if isinstance(r, bool) else "raw non-bool"
 
 
+def is_quoted_token(tok):
+    return len(tok) >= 2 and tok[0] in "'\"" and tok[-1] == tok[0] and tok[0] not in tok[1:-1]
+
+
 def real_lit(tok):
     _parser = mods()[1]
+    if not is_quoted_token(tok):
+        return "bad-token"
     try:
         return "ok " + core.enc(_parser.process_python_str(tok).value)
     except Exception as e:
@@ -205,6 +211,10 @@ def case_str(src):
 
 def case_rt(src):
     vals, _ = node_values(src)
+    try:
+        vals = vals + node_values(str(mods()[0].Marker(src)))[0]
+    except Exception:
+        pass
     return ("mk.rt", [core.enc(src), enc_pairs(canon_table(vals))])
 
 
